@@ -38,6 +38,13 @@ every schema table attribute names and field names are unique; the (option
 prefix, schema) pairs used by to_entry equal those used by from_entry; an
 empty list clears every schema the non-empty branch writes; list/bool/dict
 type tags are handled by both converters.
+Added by the seeding rounds - C15.1 every rule attribute is decoded from its
+own field, value and wildcard test alike; C15.2 unique names split from the
+right, pad width and alphabet capacity through format() or str.format with
+constant specs; C15.3 where[:why] is split once and every slot passed by
+from_data is decoded; C15.4 get_with_metadata decodes by the stored format;
+C15.5 an empty list clears every schema and the DN tenant order is reversed on
+both sides.
 Does NOT decide round-trip equality and injectivity over the value domains
 (type coercions, port 0 vs wildcard, None vs empty list).
 """
